@@ -265,7 +265,14 @@ impl C12 {
         let reply: Vec<u8> = (0 .. n_in).map(|i| (i as u8).wrapping_mul(17).wrapping_add(3)).collect();
         let short = tcp && t.draw(CFG, 2) == 1;
         let seg = tcp && t.draw(CFG, 2) == 1;
+        // UDP: one case in four, the reply arrives from another source address than the one that was
+        // asked (a server behind address translation): the socket is not connected, the datagram is
+        // received all the same
+        let foreign = !tcp && t.draw(CFG, 4) == 0;
         let mut w = World::new(t);
+        if foreign {
+            w.net.foreign_src_ppm = 1_000_000;
+        }
         if short {
             w.os.short_write_ppm = 700_000;
         }
